@@ -62,28 +62,36 @@ def r1_pipeline(ctx, chk, rule="C02.1"):
     else:
         chk.violation(rule, f.where(pr), "the restriction of Player 1 to its reachability strategies is conditional: with some configuration rewards are solved on the unrestricted game",
                       expected="unconditional", found=norm_stmt(cfg.stmt_of(pr)), construct="solve() conditional restriction")
-    # pruning iff flag
+    # pruning iff flag: judged on the path condition of the call (so `if flag: prune`, `if not flag: ... else: prune` and a guard
+    # clause are the same thing), not on the shape of the if statement
     st = cfg.stmt_of(psg)
-    par = st.parent
-    flag_ok = isinstance(par, ast.If) and st in par.body and attr_path(par.test) == "self." + shared.solver_names(ctx)["flag_field"]
-    if flag_ok and cfg.dominates(par, str_):
-        # no path from pruning to solve_total_rewards skipping? pruning inside the if-body always executes when flag holds
-        body_jumps = [n for s in par.body for n in ast.walk(s) if isinstance(n, (ast.Return, ast.Raise, ast.Break, ast.Continue))]
-        before = [s for s in par.body[:par.body.index(st)] if not shared_is_log(s)]
-        if body_jumps or before:
-            chk.undecided(rule, f.where(psg), "extra statements before the pruning call inside `if self.prune_states`")
-        else:
-            chk.ok(rule, f.where(psg), "prune_stochastich_game() runs iff self.prune_states, before solve_total_rewards()")
-    elif isinstance(par, ast.If) and st in par.orelse:
-        chk.violation(rule, f.where(psg), "pruning runs when the flag is OFF", expected="if self.prune_states: prune", found=norm_stmt(par),
-                      construct="solve() pruning inverted")
-    elif cfg.on_every_normal_path(psg):
-        chk.violation(rule, f.where(psg), "pruning runs regardless of the prune flag", expected="if self.prune_states: prune",
-                      found=norm_stmt(st), construct="solve() pruning unconditional")
+    flagf = shared.solver_names(ctx)["flag_field"]
+    sxp = SymX(ctx, f, "StochasticGame", inline_depth=0).run()
+    peff = [e for e in sxp.final.effects if e[1] == "call" and e[2][0] == "mcall" and e[2][2] == "prune_stochastich_game"]
+    want_c = ("truthy", ("attr", ("v", "self"), flagf))
+    flag_ok = False
+    outer = st
+    while isinstance(getattr(outer, "parent", None), ast.If):
+        outer = outer.parent
+    if len(peff) != 1:
+        chk.undecided(rule, f.where(psg), "the pruning call is not a plain statement of solve() (%d call effects)" % len(peff))
     else:
-        t = par.test if isinstance(par, ast.If) else None
-        chk.violation(rule, f.where(psg), "pruning is guarded by `%s`, not by the prune flag alone" % (src(t) if t is not None else "?"),
-                      expected="if self.prune_states", found=src(t) if t is not None else norm_stmt(st), construct="solve() pruning guard")
+        pc = peff[0][0]
+        if pc == want_c or pc == simp(("cmp", "==", ("attr", ("v", "self"), flagf), TRUE)):
+            flag_ok = True
+            if cfg.dominates(outer, str_):
+                chk.ok(rule, f.where(psg), "prune_stochastich_game() runs iff self.%s, before solve_total_rewards()" % flagf)
+            else:
+                chk.undecided(rule, f.where(psg), "the pruning decision does not dominate solve_total_rewards()")
+        elif pc == simp(("not", want_c)):
+            chk.violation(rule, f.where(psg), "pruning runs when the flag is OFF", expected="if self.%s: prune" % flagf, found=show(pc),
+                          construct="solve() pruning inverted")
+        elif pc == TRUE:
+            chk.violation(rule, f.where(psg), "pruning runs regardless of the prune flag", expected="if self.%s: prune" % flagf,
+                          found=norm_stmt(st), construct="solve() pruning unconditional")
+        else:
+            chk.violation(rule, f.where(psg), "pruning is guarded by `%s`, not by the prune flag alone" % show(pc),
+                          expected="if self.%s" % flagf, found=show(pc), construct="solve() pruning guard")
     if not cfg.dominates(psg, str_) and flag_ok:
         pass
     if flag_ok and cfg.path_exists(cfg.stmt_of(str_), st):
